@@ -94,6 +94,9 @@ type Store struct {
 
 	Admission *Admission
 
+	// UIDPrefix makes uids unique across several stores living in one process.
+	UIDPrefix string
+
 	versions map[schema.GroupKind]string // storage version per group/kind
 	rid      map[string]int              // current reconcile id per actor
 }
